@@ -227,12 +227,24 @@ func (t *Tester) runDescribedTests(
 		return cases, errors.WithStack(err)
 	}
 
+	// Keep subroutines of the same name declared outside of the describe statement
+	shadowed := make(map[string]*ast.SubroutineDeclaration)
 	defer func() {
 		// Remove all stored subroutines
 		for _, sub := range d.Subroutines {
 			delete(defs.Subroutines, sub.Name.Value)
 		}
+		// And put back the ones that were shadowed by the describe statement
+		for name, sub := range shadowed {
+			defs.Subroutines[name] = sub
+		}
 	}()
+
+	for _, sub := range d.Subroutines {
+		if outer, ok := defs.Subroutines[sub.Name.Value]; ok {
+			shadowed[sub.Name.Value] = outer
+		}
+	}
 
 	// Prepare to add subroutine definitions inside describe statement
 	for _, sub := range d.Subroutines {
